@@ -615,6 +615,9 @@ func (g *gen) gcHistoryOp(repo int, images, indexes, arts []int, extraBlob int) 
 		tag := ""
 		if g.r.chance(55) {
 			tag = g.r.str("v1", "v2", "latest", "art", "idx")
+			if g.fewTags {
+				tag = g.r.str("t", "t0", "tx")
+			}
 		}
 		g.pushManifest(repo, m, tag, false)
 		// graph profiles push with plain sha256 references
